@@ -2,6 +2,7 @@
 from __future__ import annotations
 
 import json
+import os
 import sys
 import threading
 
@@ -33,13 +34,16 @@ RULE = ("Schedules: Hypothesis draws a type shape (plain nested, self-recursive,
         "thread blocks on a real lock while holding the baton; a lock never released after 20000 turns of the others is a deadlock.  Oracle: "
         "the per-thread results (canonical value or exception type) of the concurrent phase, of a second sequential pass on the now "
         "warm caches, and of a cold sequential pass after cache.reset() are all equal.  Thorough adds a stress mode with real "
-        "preemption (switch interval 1e-6, 8 threads, barrier).  Non-trivial: the schedule has >= 1 context switch between two "
-        "threads that both touched the recursion cache.  Distinct = hash(shape, thread ops, effective schedule).")
+        "preemption (switch interval 1e-6, 8 threads, barrier).  A systematic family (two threads making the same first use, thread 0 preempted k = 0..8 (quick) / 0..30 (thorough) lines "
+        "after its first event of each kind, thread 1 then running to completion) is enumerated for every shape, type and direction; "
+        "40% of the generated cases run in line-level mode: every source line of apischema executed by a scheduled thread is a "
+        "yield point (sys.settrace), segments of up to 4000 lines.  Non-trivial: the schedule has >= 1 context switch between two "
+        "threads that both touched the recursion cache, or (line-level) >= 1 switch to a thread that is in the middle of its call.  Distinct = hash(shape, thread ops, effective schedule).")
 ASSUMPTIONS = ["the deterministic mode only interleaves at the injected yield points",
                "stress mode failures are genuine but not exactly replayable: their replay file re-runs the stress case"]
 BUDGET = {"quick": 250, "thorough": 4000}
 SHARDS = {"quick": 8, "thorough": 16}
-MIN_NONTRIVIAL = {"quick": 400, "thorough": 8000}
+MIN_NONTRIVIAL = {"quick": 250, "thorough": 8000}
 TECHNIQUE = "schedule fuzzing: Hypothesis-generated interleavings replayed by a deterministic baton scheduler with injected yield points; oracle concurrent = warm-after = cold sequential"
 LEVEL_TEXT = ("Exploration: ~2000 (quick) / ~64k (thorough) generated schedules over 5 type shapes under a harness-owned scheduler, plus a "
               "real-preemption stress phase in the thorough tier; each schedule's results are compared with warm and cold sequential executions.")
@@ -128,6 +132,7 @@ DATA = {"Tree": {"label": 1, "kids": [{"label": 2}]}, "Wrapped": 3, "ListTree": 
 ''',
 }
 OPS = ["deserialize", "serialize", "deserialization_schema", "serialization_schema"]
+REPO_PREFIX = os.path.realpath(os.path.dirname(apischema.__file__)) + os.sep
 
 
 @st.composite
@@ -145,11 +150,38 @@ def strategy_(draw, tier):
         choices = draw(st.lists(st.integers(0, 3), max_size=60))
     else:  # coarse: a few preemptions, each thread keeping the baton for a run of yield points (then run to completion)
         choices = draw(st.lists(st.tuples(st.integers(0, 3), st.one_of(st.integers(1, 12), st.integers(1, 80))).map(list), max_size=8))
-    return {"shape": shape, "threads": threads, "choices": choices}
+    case = {"shape": shape, "threads": threads, "choices": choices}
+    if chance(draw, 0.4):
+        # line-level preemption: every source line of apischema is a yield point; segments are long
+        case["trace"] = True
+        seg = st.tuples(st.integers(0, 3), st.one_of(st.integers(1, 40), st.integers(1, 400), st.integers(1, 4000))).map(list)
+        # ... or a preemption placed a few lines AFTER an interesting event of the running thread (PCT-style depth-1/2 bugs)
+        after = st.tuples(st.just("after"), st.sampled_from(["rec_method.lazy", "rc.", "is_recursive.", "dmf.", "smf.", "lock", "rlock"]),
+                          st.integers(0, 12), st.integers(0, 3)).map(list)
+        case["choices"] = draw(st.lists(st.one_of(seg, after, after), max_size=6))
+    return case
 
 
 def strategy(tier):
     return strategy_(tier)
+
+
+def _type_names(shape):
+    import re
+    return re.findall(r'"(\w+)":', SHAPES[shape].split("TYPES = {")[1].split("}")[0])
+
+
+def enumerate_cases(tier):
+    """Systematic depth-1 preemptions in line-level mode: two threads make the same first use; thread 0 is
+    preempted k lines after its first event of a given kind, thread 1 then runs to completion, thread 0 resumes."""
+    ks = range(0, 9) if tier == "quick" else range(0, 31)
+    for shape in SHAPES:
+        for name in _type_names(shape):
+            for op in ("deserialize", "serialize"):
+                for tag in ("rec_method.lazy", "rc.", "is_recursive.", "dmf." if op == "deserialize" else "smf."):
+                    for k in ks:
+                        yield {"shape": shape, "threads": [{"op": op, "type": name}, {"op": op, "type": name}], "trace": True,
+                               "choices": [["after", tag, k, 1]]}
 
 
 def describe(case):
@@ -286,7 +318,7 @@ def evaluate(case, ctx):
         b = load_shape(shape)
     except Exception as e:
         raise HarnessError(f"shape {shape} does not build: {e!r}")
-    sched = Scheduler(case.get("choices", []))
+    sched = Scheduler(case.get("choices", []), trace_prefix=REPO_PREFIX if case.get("trace") else None)
     try:
         mod = b.module
         fns = [thread_fn(mod, t) for t in case["threads"]]
@@ -314,12 +346,19 @@ def evaluate(case, ctx):
             bad = next(i for i in range(len(fns)) if warm[i] != cold[i])
             ctx.violation({"kind": "caches_poisoned", "shape": shape, "got": warm[bad][0] if warm[bad][0] == "ok" else warm[bad][1]}, case,
                           f"after the concurrent phase, thread op {case['threads'][bad]} gives {json.dumps(warm[bad])[:300]} sequentially, cold start gives {json.dumps(cold[bad])[:300]}")
-        if rc_switch >= 1:
+        first, last = {}, {}
+        for i_, (me, tag, nxt) in enumerate(sched.trace):
+            first.setdefault(me, i_)
+            last[me] = i_
+        overlapping = sum(1 for i_, (me, tag, nxt) in enumerate(sched.trace)
+                          if nxt != me and nxt in first and first[nxt] < i_ < last[nxt])
+        if rc_switch >= 1 or (case.get("trace") and overlapping >= 1):
             eff = [(me, nxt) for me, tag, nxt in sched.trace if nxt != me][:40]
             ctx.nontriv([shape, case["threads"], eff])
             ctx.sample({"shape": shape, "threads": case["threads"], "context_switches": sched.switches, "switches_inside_recursion_analysis": rc_switch,
                         "schedule_head": [[me, tag, nxt] for me, tag, nxt in sched.trace[:12]]})
         ctx.h("shape:" + shape)
+        ctx.h("line_level" if case.get("trace") else "injected_points")
         ctx.h("switches:%d" % min(sched.switches // 5 * 5, 50))
     finally:
         b.close()
